@@ -71,6 +71,43 @@ fn strategy_ultra(vd: &'static ViewDef) -> impl Fn(Tier) -> BoxedStrategy<Case> 
     }
 }
 
+/// the view over another windowed view (Sma, Max, Min or Cumulative of window M) instead of Echo: the chain forgets everything
+/// older than K + M - 1 raw values (the inner view's last K outputs are functions of those). ints = [K + M - 1, N]
+fn strategy_chained(vd: &'static ViewDef) -> impl Fn(Tier) -> BoxedStrategy<Case> + Send + Sync {
+    move |tier: Tier| {
+        (gen::window(tier, vd.min_n, 12, 40), 2usize..=6, 0usize..4, gen::dyadic_scale(), 0u32..=20, 0usize..3)
+            .prop_flat_map(move |(n, mi, which, sc, e1, mode)| {
+                let inner = [Spec::Sma(echo(), mi), Spec::Max(echo(), mi), Spec::Min(echo(), mi), Spec::Cumulative(echo(), mi)][which].clone();
+                let k = (vd.k)(n, 1) + mi - 1;
+                let spec = rebase(&(vd.mk)(n, 1), &inner);
+                let suffix = gen::stream(StreamCfg::new(n).scale(sc).len(k, k + n).segs(5));
+                let p1 = gen::stream(StreamCfg::new(n).scale(sc).len(1, 4 * n + 3).segs(4));
+                let p2 = gen::stream(StreamCfg::new(n).scale(sc).len(0, 4 * n + 3).segs(4));
+                (suffix, p1, p2).prop_map(move |(s, p1, mut p2)| {
+                    if mode == 1 {
+                        p2.clear();
+                    }
+                    Case { spec: Some(spec.clone()), xs: scale_up(&p1, e1), ys: p2, zs: s, a: Rat(1, 1), b: Rat(0, 1), ints: vec![k as i64, n as i64], ..Default::default() }
+                })
+            })
+            .boxed()
+    }
+}
+/// replace the Echo leaf of a single-window view by `inner`
+fn rebase(s: &Spec, inner: &Spec) -> Spec {
+    let mut v = serde_json::to_value(s).expect("spec to json");
+    fn walk(v: &mut serde_json::Value, inner: &serde_json::Value) {
+        match v {
+            serde_json::Value::String(x) if x == "Echo" => *v = inner.clone(),
+            serde_json::Value::Array(a) => a.iter_mut().for_each(|x| walk(x, inner)),
+            serde_json::Value::Object(o) => o.values_mut().for_each(|x| walk(x, inner)),
+            _ => {}
+        }
+    }
+    walk(&mut v, &serde_json::to_value(inner).expect("spec to json"));
+    serde_json::from_value(v).expect("json to spec")
+}
+
 fn strategy(vd: &'static ViewDef, max_exp: u32) -> impl Fn(Tier) -> BoxedStrategy<Case> + Send + Sync {
     move |tier: Tier| {
         let long = strategy_long(vd);
@@ -121,7 +158,8 @@ fn check(vd: &'static ViewDef, exact: bool) -> impl Fn(&Case) -> Verdict + Send 
         let k = case.ints[0] as usize;
         let n = case.ints[1] as usize;
         let ultra = case.ints.len() >= 5;
-        let id = format!("C03/{}/{}/{}", vd.name, if ultra { "ultra" } else { "suffix" }, if exact { "Q" } else { "f64" });
+        let chained = !vd.name.starts_with("PFE") && spec.depth() > 2;
+        let id = format!("C03/{}/{}/{}", vd.name, if ultra { "ultra" } else if chained { "chained" } else { "suffix" }, if exact { "Q" } else { "f64" });
         let s = bigs(&case.zs);
         let ultra_prefix: Vec<Rat> = if ultra { gen::ultra_stream(case.ints[2] as u64, case.ints[3] as usize, case.ints[4]).into_iter().map(|k| Rat(k, 8)).collect() } else { vec![] };
         let xs: &[Rat] = if ultra { &ultra_prefix } else { &case.xs };
@@ -220,6 +258,26 @@ fn check(vd: &'static ViewDef, exact: bool) -> impl Fn(&Case) -> Verdict + Send 
     }
 }
 
+/// fz_single: view, N, M, scalar, two prefix lengths; the stream is cut into prefix 1, prefix 2 and the common suffix (>= K values)
+pub fn fuzz_decode(u: &mut arbitrary::Unstructured) -> Option<(String, Case)> {
+    let vd = &VIEWS[u.int_in_range(0..=VIEWS.len() - 1).ok()?];
+    let n = vd.min_n + u.int_in_range(0..=15usize).ok()?;
+    let m = 1 + u.int_in_range(0..=3usize).ok()?;
+    let exact = !vd.f64_leg || u.int_in_range(0..=1u8).ok()? == 0;
+    let (l1, l2) = (u.int_in_range(0..=90usize).ok()?, u.int_in_range(0..=90usize).ok()?);
+    let vals = crate::fuzzdec::stream(u, false, 200);
+    let k = (vd.k)(n, m);
+    if vals.len() < k {
+        return None;
+    }
+    let avail = vals.len() - k;
+    let l1 = l1.min(avail);
+    let l2 = l2.min(avail - l1);
+    let (p1, rest) = vals.split_at(l1);
+    let (p2, s) = rest.split_at(l2);
+    Some((format!("C03/{}/suffix/{}", vd.name, if exact { "Q" } else { "f64" }), Case { spec: Some((vd.mk)(n, m)), xs: p1.to_vec(), ys: p2.to_vec(), zs: s.to_vec(), a: Rat(1, 1), b: Rat(0, 1), ints: vec![k as i64, n as i64], ..Default::default() }))
+}
+
 fn tol_q_irr_or_zero(scale: &R) -> R {
     // exact unless the exact scalar had to round (long recursion) or a square root was taken
     if crate::q::arena_rounded() == 0 {
@@ -235,6 +293,9 @@ pub fn clauses() -> Vec<Clause> {
     for vd in VIEWS.iter() {
         let rule = "view, N (1..24, thorough ..120; M in 1..6 for PFE's average), suffix of exactly K or K+{1,N/2,N} values, two prefixes of 0..5N+3 values each scaled by 2^e (e <= 40 in Q, <= 20 in f64), also: empty prefix, prefix = copy of the suffix, prefix ending in a flat stretch at a far level. K = N (N+1 for Rsi, MyRSI, Roc; 2N for Alma; N+M-1 / N+2M-1 for PFE over Sma(M) / Alma(M)). Compared at every suffix position >= K; held-output steps (MyRSI flat window, Roc zero base) exempt and counted. Non-trivial: the prefixes differ AND the two runs' outputs differed before the suffix was complete (the check could have failed).";
         v.push(Clause::generated("C03", format!("C03/{}/suffix/Q", vd.name), rule, 600, 20_000, strategy(vd, 40), check(vd, true)).with_shard(100));
+        if vd.exemption == 0 && !vd.name.starts_with("PFE") {
+            v.push(Clause::generated("C03", format!("C03/{}/chained/Q", vd.name), "the view (N in its minimum..12, thorough ..40) over Sma, Max, Min or Cumulative of window M in 2..6 instead of over Echo: two histories (prefixes of 1..4N+3 and 0..4N+3 values, the first scaled by 2^e, e <= 20; one case in three with an empty second prefix) sharing their last K + M - 1 raw values must agree from there on, exactly in Q. A view that keeps anything of the raw input instead of its inner view's output, or of the first values it ever saw, fails here and nowhere over Echo. Non-trivial as for the suffix clauses.", 400, 10_000, strategy_chained(vd), check(vd, true)).with_shard(100));
+        }
         let urule = "one prefix of 135 000 values (thorough 1.1e6; past 2^16 and 2^17 updates: wide noise, walk with plateaus, zero stretches or ties around a level, on the 1/8 grid, derived from a generated seed), the other 0..3N grammar values, N from the view's minimum to +7 (1 in 4: 9..40); same oracle and non-triviality rule.";
         v.push(Clause::generated("C03", format!("C03/{}/ultra/Q", vd.name), urule, 1, 20, strategy_ultra(vd), check(vd, true)).with_shard(1));
         if vd.f64_leg {
